@@ -153,6 +153,68 @@ func verifC12Twice(maxN, stmtLen int) {
 	}
 }
 
+// verifC12Pending: the same question asked through the entry point the CLI
+// uses (ExecuteN -> Pending -> Execute) on a directory that also holds a later
+// file: a partially applied file whose applied part changed - or that no
+// longer has as many statements as were applied - is refused, and the later
+// file is not executed either.
+func verifC12Pending(maxM, maxN, stmtLen int) {
+	m := verifChoice("m", maxM-1) + 2 // 2..maxM old statements
+	n := verifChoice("n", maxN+1)     // 0..maxN new statements
+	k := verifChoice("k", m)          // 0..m-1 applied before the failure
+	old := make([]string, m)
+	cur := make([]string, n)
+	for i := range old {
+		old[i] = verifString(fmt.Sprintf("o%d", i), stmtLen)
+	}
+	for i := range cur {
+		cur[i] = verifString(fmt.Sprintf("t%d", i), stmtLen)
+	}
+	later := &vFile{name: "2_b.sql", version: "2", desc: "b", stmts: []string{"LATER"}}
+	mkDir := func(f *vFile) *vSumDir {
+		files := []File{f, later}
+		d := &vSumDir{vDir: vDir{files: files}}
+		hf, err := NewHashFile(files)
+		verifAssert(err == nil, "hash")
+		d.sum, _ = hf.MarshalText()
+		return d
+	}
+	ctx := context.Background()
+	ops := 0
+	rrw := &vRRW{ops: &ops, failAt: -1}
+	f1 := &vFile{name: "1_a.sql", version: "1", desc: "a", stmts: old}
+	d1 := &vDriver{ops: &ops, failAt: k, clean: true}
+	ex1, err := NewExecutor(d1, mkDir(f1), rrw)
+	verifAssert(err == nil, "executor 1")
+	err = ex1.ExecuteN(ctx, 0)
+	var see *StmtExecError
+	verifAssert(errors.As(err, &see) && len(d1.executed) == k, "run 1 stops at statement k")
+	verifAssert(len(rrw.revs) == 1 && rrw.revs[0].Applied == k && rrw.revs[0].Total == m, "run 1 recorded partial progress")
+	f2 := &vFile{name: "1_a.sql", version: "1", desc: "a", stmts: cur}
+	ops = 0
+	d2 := &vDriver{ops: &ops, failAt: -1, clean: true}
+	ex2, err := NewExecutor(d2, mkDir(f2), rrw)
+	verifAssert(err == nil, "executor 2")
+	err = ex2.ExecuteN(ctx, 0)
+	same := n >= k
+	if same {
+		for i := 0; i < k; i++ {
+			same = verifAnd(same, old[i] == cur[i])
+		}
+	}
+	var hce HistoryChangedError
+	if same {
+		verifReach("resume")
+		verifAssert(err == nil, "unchanged applied prefix: the run resumes and continues with the later file")
+		verifAssert(len(d2.executed) == n-k+1, "the resume executes the new tail and then the later file")
+	} else {
+		verifReach("refuse")
+		verifAssert(errors.As(err, &hce), "changed or truncated applied prefix: history-changed error")
+		verifAssert(len(d2.executed) == 0, "a refused run executes nothing, not even later files")
+	}
+}
+
+func VerifHarness_C12_pending()  { verifC12Pending(3, 3, 1) }
 func VerifHarness_C12_twice()    { verifC12Twice(3, 1) }
 func VerifHarness_C12_twice4()   { verifC12Twice(4, 2) }
 func VerifHarness_C12_quick()    { verifC12(3, 3, 1, false) }
